@@ -255,9 +255,11 @@ def cut_loop(I, s, st, lab, spec, cond, pre_body, post_body, at_head, auto_inv, 
         if so is None:
             if isinstance(val, Ref):
                 continue       # reference re-binding inside loops is not supported; stores are havocked below
-            if val is None or isinstance(val, (str, Opaque)):
+            if isinstance(val, Opaque):
                 continue
-            raise ToolLimit("loop %s: cannot havoc local %s of value %r" % (lab, n, val))
+            # a local that is None / a string at the loop head and is assigned in the body: keeping the entry value for every iteration would
+            # be unsound (e.g. `last = None` ... `if x != last: last = x; <recompute>` caches values across iterations), and its sort is unknown
+            raise ToolLimit("loop %s: local %s is %r at the loop head and is assigned in the body (loop-carried value of unknown sort)" % (lab, n, val))
         if so == "Int" and n not in extra_havoc and not int_preserving(s.body, n):
             so = "Real"        # e.g. `HIest = 0` before the loop but real values assigned inside: the havocked value must be a real
         nv = ctx.fresh(n, so)
